@@ -297,6 +297,9 @@ Definition ms_purge (l : logid) (s : mstore) : mstore := ms_with_log s (mem_purg
 Definition ms_apply (es : list entry) (s : mstore) : mstore := ms_with_sm s (sm_apply es (ms_sm s)) (ms_snap s).
 Definition ms_build (s : mstore) : mstore := ms_with_sm s (ms_sm s) (Some (sm_snapshot (ms_sm s))).
 Definition ms_install (sn : snapshot) (s : mstore) : mstore := ms_with_sm s (sm_install sn) (Some sn).
+(* A coordinator process that restarts on the in-memory store starts from MemStore::with_shared_state()
+   again: nothing survives (bootstrap(), the non-persistent mode). *)
+Definition mem_restart (s : mstore) : mstore := mstore0.
 (* get_log_state: (last_purged, last_log_id) *)
 Definition opt_or {A} (a b : option A) : option A := match a with Some _ => a | None => b end.
 Definition ms_log_state (s : mstore) : option logid * option logid :=
